@@ -39,6 +39,10 @@ class SetupCfgWriter(DependencyWriter):
 
         with open(self.path, "r", encoding="utf-8") as f:
             original_lines = f.readlines()
+        if original_lines and not original_lines[-1].endswith("\n"):
+            # like RequirementsTxtWriter: terminate the last line, else the first added
+            # requirement is glued to it on disk while the diff shows it on a line of its own
+            original_lines[-1] += "\n"
 
         if not (
             new_lines := self.build_new_lines(
